@@ -371,7 +371,9 @@ fn dump_crate<'tcx>(
                     fns.push(fn_j(tcx, ldid, pb, Some(pi.as_u32())));
                 }
             }
-            DefKind::AnonConst | DefKind::InlineConst => {
+            DefKind::AnonConst | DefKind::InlineConst | DefKind::Const { .. } | DefKind::AssocConst { .. } => {
+                // named constants of aggregate type (`const EMPTY: Self = Min { x: INFINITY }`) are
+                // evaluated by the analysis from their initialiser body, like anonymous ones
                 let body = tcx.mir_for_ctfe(did);
                 fns.push(fn_j(tcx, ldid, body, None));
             }
